@@ -65,6 +65,13 @@ func (m *Machine) exec(th *Thread, fr *Frame) {
 			m.unsupported("unop " + i.Op.String())
 		}
 	case *ssa.Store:
+		// `return x, f()` with named results compiles to: t = *x; r = f(); *x = t; *err = r.
+		// gc reads x after the call (see the Return case): storing the stale load back would
+		// undo what f assigned through a closure, so that store is skipped.
+		if ld, ok := i.Val.(*ssa.UnOp); ok && ld.Op == token.MUL && ld.X == i.Addr && ld.Block() == fr.block && callBetween(fr.block, ld, i) {
+			fr.pc++
+			return
+		}
 		m.store(th, m.operand(fr, i.Addr), m.operand(fr, i.Val))
 		fr.pc++
 	case *ssa.FieldAddr:
@@ -258,6 +265,31 @@ func (m *Machine) exec(th *Thread, fr *Frame) {
 		vals := make([]Value, len(i.Results))
 		for k, r := range i.Results {
 			vals[k] = m.operand(fr, r)
+			// Evaluation order: `return x, f()` where f assigns x through a closure. go/ssa loads
+			// x before the call, the gc compiler (whose binary is what runs) after it. Follow gc:
+			// a result that is a load of a local variable made earlier in this block, with a
+			// call in between, is re-loaded here.
+			if ld, ok := r.(*ssa.UnOp); ok && ld.Op == token.MUL && ld.Block() == fr.block && len(i.Results) > 1 {
+				switch ld.X.(type) {
+				case *ssa.Alloc, *ssa.FreeVar:
+					seenLoad, callBetween := false, false
+					for _, ins2 := range fr.block.Instrs {
+						if ins2 == ssa.Instruction(ld) {
+							seenLoad = true
+							continue
+						}
+						if seenLoad {
+							if _, isCall := ins2.(*ssa.Call); isCall {
+								callBetween = true
+								break
+							}
+						}
+					}
+					if callBetween {
+						vals[k] = m.load(th, m.operand(fr, ld.X))
+					}
+				}
+			}
 		}
 		m.doReturn(th, resultsValue(vals))
 	case *ssa.RunDefers:
@@ -341,6 +373,26 @@ func (m *Machine) exec(th *Thread, fr *Frame) {
 	default:
 		m.unsupported(fmt.Sprintf("instruction %T", ins))
 	}
+}
+
+// callBetween reports whether a call instruction lies between from and to in block b.
+func callBetween(b *ssa.BasicBlock, from, to ssa.Instruction) bool {
+	seen := false
+	for _, ins := range b.Instrs {
+		if ins == from {
+			seen = true
+			continue
+		}
+		if ins == to {
+			return false
+		}
+		if seen {
+			if _, isCall := ins.(*ssa.Call); isCall {
+				return true
+			}
+		}
+	}
+	return false
 }
 
 func decodeRune(s string) (rune, int) {
